@@ -70,7 +70,7 @@ type c09Spec struct {
 	Others    []c09OtherB
 }
 
-func strsAny(ss []string) []any {
+func g4StrsAny(ss []string) []any {
 	out := make([]any, len(ss))
 	for i, s := range ss {
 		out[i] = s
@@ -90,7 +90,7 @@ func (s *c09Spec) configJSON() []byte {
 	var kbs, sch, val, mut, conv []any
 	for _, b := range s.KBs {
 		if s.Version == "v0" {
-			m := map[string]any{"name": b.Name, "kind": "ConfigMap", "event": strsAny(b.V0Events),
+			m := map[string]any{"name": b.Name, "kind": "ConfigMap", "event": g4StrsAny(b.V0Events),
 				"namespaceSelector": map[string]any{"matchNames": []any{b.NS}}}
 			if b.F != nil {
 				m["jqFilter"] = b.F.text()
@@ -113,7 +113,7 @@ func (s *c09Spec) configJSON() []byte {
 			m["group"] = b.Group
 		}
 		if len(b.Inc) > 0 {
-			m["includeSnapshotsFrom"] = strsAny(b.Inc)
+			m["includeSnapshotsFrom"] = g4StrsAny(b.Inc)
 		}
 		if b.Types != nil {
 			ts := []any{}
@@ -130,7 +130,7 @@ func (s *c09Spec) configJSON() []byte {
 			m["group"] = o.Group
 		}
 		if len(o.Inc) > 0 {
-			m["includeSnapshotsFrom"] = strsAny(o.Inc)
+			m["includeSnapshotsFrom"] = g4StrsAny(o.Inc)
 		}
 		switch o.Kind {
 		case "schedule":
@@ -215,7 +215,7 @@ func c09SameNames(s *c09Spec) bool {
 	return false
 }
 
-func optStr(s string) string {
+func g4OptStr(s string) string {
 	if s == "" {
 		return "-"
 	}
@@ -237,7 +237,7 @@ func c09Start(r *Run, c *Case, spec *c09Spec) *c09Env {
 	for _, b := range spec.KBs {
 		jqText, ast := "-", "-"
 		if b.F != nil {
-			jqText, ast = b.F.text(), canonJSON(b.F.ast())
+			jqText, ast = b.F.text(), g4CanonJSON(b.F.ast())
 		}
 		keep := 0
 		if b.Keep {
@@ -245,7 +245,7 @@ func c09Start(r *Run, c *Case, spec *c09Spec) *c09Env {
 		}
 		ts := "default"
 		if b.Types != nil {
-			ts = typesArg(b.Types)
+			ts = g4TypesArg(b.Types)
 		}
 		if spec.Version == "v0" {
 			// `event: [add, update, delete]` of the legacy config
@@ -255,10 +255,10 @@ func c09Start(r *Run, c *Case, spec *c09Spec) *c09Env {
 			}
 			ts = joinStrs(vs)
 		}
-		c.Op(fmt.Sprintf("kb name=%s ns=%s jq=%s ast=%s keep=%d group=%s inc=%s types=%s", b.Name, b.NS, jqText, ast, keep, optStr(b.Group), joinStrs(b.Inc), ts), "ok")
+		c.Op(fmt.Sprintf("kb name=%s ns=%s jq=%s ast=%s keep=%d group=%s inc=%s types=%s", b.Name, b.NS, jqText, ast, keep, g4OptStr(b.Group), joinStrs(b.Inc), ts), "ok")
 	}
 	for _, o := range spec.Others {
-		c.Op(fmt.Sprintf("ob kind=%s name=%s group=%s inc=%s from=%s to=%s", o.Kind, o.Name, optStr(o.Group), joinStrs(o.Inc), optStr(o.From), optStr(o.To)), "ok")
+		c.Op(fmt.Sprintf("ob kind=%s name=%s group=%s inc=%s from=%s to=%s", o.Kind, o.Name, g4OptStr(o.Group), joinStrs(o.Inc), g4OptStr(o.From), g4OptStr(o.To)), "ok")
 	}
 
 	e.h = hook.NewHook("c09-hook", script, false, false, "", log.NewNop())
@@ -376,7 +376,7 @@ func (e *c09Env) barrier() bool {
 			for _, b := range e.h.GetConfig().OnKubernetesEvents {
 				has := false
 				for _, o := range e.hc.KubernetesController.SnapshotsFor(b.BindingName) {
-					if nameOf(o.Metadata.ResourceId) == "zz" {
+					if g4NameOf(o.Metadata.ResourceId) == "zz" {
 						has = true
 					}
 				}
@@ -393,7 +393,7 @@ func (e *c09Env) barrier() bool {
 	}
 	for ns := range nss {
 		m := map[string]any{"apiVersion": "v1", "kind": "ConfigMap", "metadata": map[string]any{"name": "zz", "namespace": ns}}
-		if _, err := e.fc.Client.Dynamic().Resource(cmGVR).Namespace(ns).Create(context.TODO(), &unstructured.Unstructured{Object: m}, metav1.CreateOptions{}); err != nil {
+		if _, err := e.fc.Client.Dynamic().Resource(g4CmGVR).Namespace(ns).Create(context.TODO(), &unstructured.Unstructured{Object: m}, metav1.CreateOptions{}); err != nil {
 			return false
 		}
 	}
@@ -401,7 +401,7 @@ func (e *c09Env) barrier() bool {
 		return false
 	}
 	for ns := range nss {
-		if err := e.fc.Client.Dynamic().Resource(cmGVR).Namespace(ns).Delete(context.TODO(), "zz", metav1.DeleteOptions{}); err != nil {
+		if err := e.fc.Client.Dynamic().Resource(g4CmGVR).Namespace(ns).Delete(context.TODO(), "zz", metav1.DeleteOptions{}); err != nil {
 			return false
 		}
 	}
@@ -437,29 +437,29 @@ func (e *c09Env) barrier() bool {
 
 // change applies one cluster change and turns the KubeEvents it caused into binding contexts.
 func (e *c09Env) change(op, ns, name string, obj map[string]any) bool {
-	dyn := e.fc.Client.Dynamic().Resource(cmGVR).Namespace(ns)
+	dyn := e.fc.Client.Dynamic().Resource(g4CmGVR).Namespace(ns)
 	var err error
 	line := ""
 	switch op {
 	case "put":
 		if e.live[ns][name] {
-			_, err = dyn.Update(context.TODO(), &unstructured.Unstructured{Object: deepCopyJSON(obj)}, metav1.UpdateOptions{})
+			_, err = dyn.Update(context.TODO(), &unstructured.Unstructured{Object: g4DeepCopyJSON(obj)}, metav1.UpdateOptions{})
 		} else {
-			_, err = dyn.Create(context.TODO(), &unstructured.Unstructured{Object: deepCopyJSON(obj)}, metav1.CreateOptions{})
+			_, err = dyn.Create(context.TODO(), &unstructured.Unstructured{Object: g4DeepCopyJSON(obj)}, metav1.CreateOptions{})
 		}
 		if err == nil {
 			got, gerr := dyn.Get(context.TODO(), name, metav1.GetOptions{})
 			if gerr != nil {
 				err = gerr
 			} else {
-				obj = deepCopyJSON(got.Object)
+				obj = g4DeepCopyJSON(got.Object)
 			}
 		}
 		if e.live[ns] == nil {
 			e.live[ns] = map[string]bool{}
 		}
 		e.live[ns][name] = true
-		line = fmt.Sprintf("put %s %s %s", ns, name, canonJSON(obj))
+		line = fmt.Sprintf("put %s %s %s", ns, name, g4CanonJSON(obj))
 	case "del":
 		err = dyn.Delete(context.TODO(), name, metav1.DeleteOptions{})
 		delete(e.live[ns], name)
@@ -480,7 +480,7 @@ func (e *c09Env) change(op, ns, name string, obj map[string]any) bool {
 	}
 	var fs []fired
 	for _, ev := range evs {
-		if strings.HasPrefix(ev.MonitorId, "__sentinel__") || (len(ev.Objects) == 1 && nameOf(ev.Objects[0].Metadata.ResourceId) == "zz") {
+		if strings.HasPrefix(ev.MonitorId, "__sentinel__") || (len(ev.Objects) == 1 && g4NameOf(ev.Objects[0].Metadata.ResourceId) == "zz") {
 			continue
 		}
 		fs = append(fs, fired{e.kbIndex(ev.MonitorId), ev})
@@ -598,8 +598,8 @@ func (e *c09Env) mkConversion(name, from, to, uid string) {
 	e.add("conversion", bcs, htypes.KubernetesConversion, fmt.Sprintf("mk conversion %s %s", name, uid))
 }
 
-// canonContexts: parse the file, replace review objects by their uid, print canonically.
-func canonContexts(data []byte) string {
+// g4CanonContexts: parse the file, replace review objects by their uid, print canonically.
+func g4CanonContexts(data []byte) string {
 	var v any
 	if err := json.Unmarshal(data, &v); err != nil {
 		return "not-json"
@@ -625,7 +625,7 @@ func canonContexts(data []byte) string {
 			m["review"] = "review:" + uid
 		}
 	}
-	return canonJSON(arr)
+	return g4CanonJSON(arr)
 }
 
 // run renders the contexts with the given indices as one hook run would.
@@ -647,7 +647,7 @@ func (e *c09Env) run(idx []int) {
 				return "err"
 			}
 			e.c.Note("render:Json()")
-			return "json=" + canonContexts(data)
+			return "json=" + g4CanonContexts(data)
 		}
 		out := e.h.Path + ".out"
 		_ = os.Remove(out)
@@ -659,7 +659,7 @@ func (e *c09Env) run(idx []int) {
 			return "no-file"
 		}
 		e.c.Note("render:file-read-by-bash-hook")
-		return "json=" + canonContexts(data)
+		return "json=" + g4CanonContexts(data)
 	})
 	e.c.Op("run "+joinInts(idx), ans)
 	if strings.HasPrefix(ans, "json=") {
@@ -669,7 +669,7 @@ func (e *c09Env) run(idx []int) {
 	}
 }
 
-func c09Object(rng *Rng, ns, name string) map[string]any { return genObject(rng, ns, name) }
+func c09Object(rng *Rng, ns, name string) map[string]any { return g4GenObject(rng, ns, name) }
 
 func runC09(r *Run) {
 	r.Rule = "per case: one hook configuration (configVersion v1 or v0) rendered as JSON and loaded by the real loader: 1-3 kubernetes bindings (jq filter from the non-failing fragment: object/array/scalar/null results, or none; keepFullObjectsInMemory on/off; group; includeSnapshotsFrom incl. self-include; executeHookOnEvent subset; one of two namespaces), optional onStartup, schedule, kubernetesValidating, kubernetesMutating, kubernetesCustomResourceConversion bindings with group / includeSnapshotsFrom; real monitors on kube-client/fake; 0-3 objects before Synchronization, then 2-7 creates/updates/deletes through the dynamic tracker; every Synchronization/Event context the controllers produce plus schedule/admission/conversion/onStartup contexts is rendered alone and in combined arrays (2-4 contexts) through the real Hook.Run (file read back from a real bash hook) or ConvertBindingContextList(...).Json(). A case is non-trivial when it renders >= 3 context lists and at least one Event and one snapshot-carrying context; distinct = distinct op-line sequences."
@@ -681,11 +681,11 @@ func runC09(r *Run) {
 		keep bool
 		v    string
 	}{
-		{"filterResult of an object-valued filter {r:.spec.replicas}", objF(fld("r", path("spec", "replicas"))), true, "v1"},
-		{"filterResult of a scalar-valued filter .spec.replicas", path("spec", "replicas"), true, "v1"},
-		{"filterResult of an array-valued filter, full objects dropped", arrF(path("spec", "replicas"), path("spec", "a")), false, "v1"},
-		{"filterResult of a null-valued filter .nope", path("nope"), true, "v1"},
-		{"filterResult of a string-valued filter .metadata.name", path("metadata", "name"), true, "v1"},
+		{"filterResult of an object-valued filter {r:.spec.replicas}", g4ObjF(g4Fld("r", g4Path("spec", "replicas"))), true, "v1"},
+		{"filterResult of a scalar-valued filter .spec.replicas", g4Path("spec", "replicas"), true, "v1"},
+		{"filterResult of an array-valued filter, full objects dropped", g4ArrF(g4Path("spec", "replicas"), g4Path("spec", "a")), false, "v1"},
+		{"filterResult of a null-valued filter .nope", g4Path("nope"), true, "v1"},
+		{"filterResult of a string-valued filter .metadata.name", g4Path("metadata", "name"), true, "v1"},
 		{"v0 hook: resourceEvent / resourceNamespace / resourceKind / resourceName", nil, true, "v0"},
 	}
 	for i, cc := range corpus {
@@ -755,8 +755,8 @@ func runC09(r *Run) {
 	//   a second (snapshot-only) binding, a schedule, a validating, a mutating and a conversion binding carrying the
 	//   same group / include options, and a fixed script of cluster changes;
 	//   version v0: filter kind x event list = 6*4 = 24 hooks.
-	filters := []*jqF{nil, objF(fld("r", path("spec", "replicas")), fld("n", path("metadata", "name"))), path("spec", "replicas"),
-		arrF(path("spec", "replicas"), path("spec", "a")), path("nope"), path("metadata", "name")}
+	filters := []*jqF{nil, g4ObjF(g4Fld("r", g4Path("spec", "replicas")), g4Fld("n", g4Path("metadata", "name"))), g4Path("spec", "replicas"),
+		g4ArrF(g4Path("spec", "replicas"), g4Path("spec", "a")), g4Path("nope"), g4Path("metadata", "name")}
 	incs := [][]string{nil, {"k1"}, {"k2"}}
 	r.Cases(20, 72, 12, func(c *Case, _ *Rng) {
 		k := c.Idx - 20
@@ -771,7 +771,7 @@ func runC09(r *Run) {
 		c.Desc = fmt.Sprintf("sweep v1: filter=%v keep=%v group=%q inc=%v", f != nil, keep, group, inc)
 		spec := &c09Spec{Version: "v1", OnStartup: true,
 			KBs: []c09KB{{Name: "k1", NS: nsA, F: f, Keep: keep, Group: group, Inc: inc},
-				{Name: "k2", NS: nsB, F: path("spec", "a"), Keep: !keep, Types: []kemtypes.WatchEventType{}}},
+				{Name: "k2", NS: nsB, F: g4Path("spec", "a"), Keep: !keep, Types: []kemtypes.WatchEventType{}}},
 			Others: []c09OtherB{{Kind: "schedule", Name: "s1", Group: group, Inc: inc},
 				{Kind: "validating", Name: "v1.example.com", Group: group, Inc: inc},
 				{Kind: "mutating", Name: "m1.example.com", Group: group, Inc: inc},
@@ -879,7 +879,7 @@ func c09Random(r *Run, c *Case, rng *Rng) {
 			b.NS = nsB
 		}
 		if rng.Chance(75) {
-			b.F = genFilterWith(rng, 2, safeFilterPaths)
+			b.F = g4GenFilterWith(rng, 2, g4SafeFilterPaths)
 		}
 		if v0 {
 			b.Keep = true // v0 has no keepFullObjectsInMemory option: the documented default applies
@@ -895,7 +895,7 @@ func c09Random(r *Run, c *Case, rng *Rng) {
 			b.Group = PickOne(rng, groups)
 			b.Inc = pickInc()
 			if rng.Chance(50) {
-				b.Types = subsetTypes(rng.Intn(8))
+				b.Types = g4SubsetTypes(rng.Intn(8))
 			}
 		}
 		spec.KBs = append(spec.KBs, b)
